@@ -945,7 +945,10 @@ fn check_window(cx: &Ctx17, w: &Window, notes: &mut Notes) -> Result<(), String>
                     && !a.right_marker
                     && if cx.reader { a.i_out == 0 || a.j_out == lm.nchars } else { a.i_out == 0 && a.j_out == lm.nchars };
                 let left_of_window = count.saturating_add(cx.radius) < c; // len <= c - r - 1
-                count <= two_r1 || (intact && left_of_window)
+                // (a short line left of the window is shown whole instead of as a lone ellipsis;
+                // "short" = no wider than the window, or the width bound would mean nothing)
+                let _ = (intact, left_of_window);
+                count <= two_r1
             }
         });
         if !ok && al.len() >= ALIGN_CAP {
@@ -1877,7 +1880,7 @@ impl Property for C17 {
     const ID: &'static str = "C17";
     type Case = Case;
     fn rule() -> String {
-        "case = (input text, target type, entry point {from_str, from_slice, from_multiple, from_reader with chunk 1 / 7 / 8192, read iterator}, options {crop_radius in {0,1,5,64,10^6,usize::MAX}, with_snippet, no_schema, angle conversions, duplicate-key policy}); every case is rendered through Display, render_with_options with the developer / user / a custom formatter (custom Localizer) / developer formatter with custom Localizer x SnippetMode {Auto, Off}, and through the miette adapter (GraphicalReportHandler unicode_nocolor, NarratableReportHandler; message, labels and exposed source). Inputs: documents reflecting YAML escapes and raw control / wide / bidi text into messages (unknown field, unknown variant, duplicate key, invalid type/value, custom serde messages, tags, validation paths, alias errors); lines of 10-20 k characters with the error at swept columns, with long and short context lines; an exhaustive cube of (prefix length, suffix length, character class, radius, context shape) around the error column; CRLF; tabs; errors on first / last line; two-window reports whose definition site lies beyond column 65535; many-line inputs larger than the 3 KiB reader ring; two-window (anchor) reports; random token documents and mutated seeds. Oracle: no panic; no C0 (except \\n, \\t) / DEL / C1 in any output; snippet layout parsed: <= 5 consecutive source lines inside [L-2, L+2] containing L, every shown line is a fragment of the input line with that number, <= 2r+1 characters (per side <= r on the error line; short context lines entirely left of the window may be intact), caret above the character at (L, C) in display columns or at end of line; SnippetMode::Off / crop_radius 0 / with_snippet false (reader entry points included) render no snippet. Non-trivial: the error has a location and (the error line is longer than 2r+1, or a control / multi-byte character lies inside the window, or the message reflects non-ASCII or control text). distinct = distinct cases.".into()
+        "case = (input text, target type, entry point {from_str, from_slice, from_multiple, from_reader with chunk 1 / 7 / 8192, read iterator}, options {crop_radius in {0,1,5,64,10^6,usize::MAX}, with_snippet, no_schema, angle conversions, duplicate-key policy}); every case is rendered through Display, render_with_options with the developer / user / a custom formatter (custom Localizer) / developer formatter with custom Localizer x SnippetMode {Auto, Off}, and through the miette adapter (GraphicalReportHandler unicode_nocolor, NarratableReportHandler; message, labels and exposed source). Inputs: documents reflecting YAML escapes and raw control / wide / bidi text into messages (unknown field, unknown variant, duplicate key, invalid type/value, custom serde messages, tags, validation paths, alias errors); lines of 10-20 k characters with the error at swept columns, with long and short context lines; an exhaustive cube of (prefix length, suffix length, character class, radius, context shape) around the error column; CRLF; tabs; errors on first / last line; two-window reports whose definition site lies beyond column 65535; many-line inputs larger than the 3 KiB reader ring; two-window (anchor) reports; random token documents and mutated seeds. Oracle: no panic; no C0 (except \\n, \\t) / DEL / C1 in any output; snippet layout parsed: <= 5 consecutive source lines inside [L-2, L+2] containing L, every shown line is a fragment of the input line with that number, <= 2r+1 characters (per side <= r on the error line; a context line entirely left of the window shows its head), caret above the character at (L, C) in display columns or at end of line; SnippetMode::Off / crop_radius 0 / with_snippet false (reader entry points included) render no snippet. Non-trivial: the error has a location and (the error line is longer than 2r+1, or a control / multi-byte character lies inside the window, or the message reflects non-ASCII or control text). distinct = distinct cases.".into()
     }
     fn assumptions() -> Vec<String> {
         vec![
